@@ -16,4 +16,5 @@ PROP = {'level': 'exploration',
  'race_allow': [],
  'runs': [{'name': 'tooling', 'pkg': './tooling', 'run': '^TestVerifC14Tooling$', 'timeout': '20m', 'timeout_thorough': '60m'},
           {'name': 'accum', 'pkg': './accum', 'run': '^TestVerifC14Accum$', 'timeout': '20m', 'timeout_thorough': '60m'},
-          {'name': 'server', 'pkg': '.', 'run': '^TestVerifC14Server$', 'timeout': '20m', 'timeout_thorough': '60m'}]}
+          {'name': 'server', 'pkg': '.', 'run': '^TestVerifC14Server$', 'timeout': '20m', 'timeout_thorough': '60m'},
+          {'name': 'server-after-gsfa', 'pkg': '.', 'run': '^TestVerifC14Server$', 'timeout': '20m', 'timeout_thorough': '60m', 'env': {'VERIF_C14_AFTER_GSFA': '1'}}]}
